@@ -169,6 +169,9 @@ type BlockResult struct {
 	// ForeignSPRPaid lists staking winners (entry hashes) whose signing key is
 	// not the key of a top-100 PEG holder although the declared staker id is.
 	ForeignSPRPaid []string
+	// DustCandidates: at a snapshot with several equal top stakes and a
+	// non-zero rounding remainder, the addresses one of which receives it.
+	DustCandidates []factom.FAAddress
 	Ambiguous string // non-empty: the statement does not fix the outcome (e.g. tie at rank 100); comparison is skipped
 }
 
